@@ -253,7 +253,9 @@ def judge(built, inputs, ref):
                          "array-not-present-on-device-under-default-present",
                          "observed": {"array": fault[1]}})
         elif fault[0] in ("poison-in-control", "poison-subscript") and \
-                sim.undefined_reads:
+                sim.undefined_reads and not (
+                    sim.copied_back and
+                    sim.copied_back[0][3] < sim.undefined_reads[0][3]):
             vios.append({"class": "undefined-device-value-used-in-control",
                          "observed": {"fault": fault,
                                       "array": sim.undefined_reads[0][0],
